@@ -67,7 +67,7 @@ int n(int k) { return k; }
             if n == 0:
                 src = src.replace('const byte[] gc = [];', 'const byte[] gc = [];').replace('byte[] gm = [];', 'byte[] gm = [];')
             jobs.append(('bytes_w%d_n%d' % (w, n), src, ['a\x01z'], w, 200, False, 400000))
-    tally, bad, res = suites.differential(ctx, jobs, None, label='write-family')
+    tally, bad, res = suites.differential(ctx, jobs, None, label='write-family', must_compile=True)
     # python's own decimal notation as a second oracle for the 16-bit sweep
     mism = 0
     for k in range(16):
